@@ -37,6 +37,7 @@ import Cog.Sem.WidenStruct
 import Cog.Sem.RoundTrip
 import Cog.Gen.Chains
 import Cog.Front.JsonSchemaSoundMain
+import Cog.Front.OpenApiSoundMain
 namespace Cog.Sem.JSOut
 open Cog.IR Cog.Sem GoVal
 open Cog.OMap (rget rset)
@@ -492,6 +493,61 @@ theorem C12_jsonschema_source_validates_emitted_counterexample : ¬ C12_jsonsche
   | err _ => simp [hS] at hw
   | panic _ => simp [hS] at hw
 end FE
+
+/-! ### the same for OpenAPI sources (front-end model: Cog/Front/OpenApi*.lean; tie: stream `c01-front-oa`, verb `oafc12`) -/
+
+namespace OA
+open Cog.IR Cog.Sem Cog.Sem.Src Cog.Passes Cog.Gen.Chains
+open Cog.Front.OpenApi (Components OSR OS FragOA rootFrag frontEnd refTo oaValidX parser_sound)
+
+/-- SOURCE OpenAPI components → front-end → Go chain → emitted JSON Schema: a document strictly valid against the source
+    component `root` (`oaValidX`: kin-openapi's `VisitJSON`, Cog/Front/OpenApiValid.lean) that respects the IR (`sat`)
+    re-encodes to an equivalent document that validates against `#/definitions/<root>` of the emitted schema. -/
+theorem C12_openapi_source_validates_emitted_partial (fmt : String → String → Bool) (pkg : String) (cs : Components)
+    (root : String) (fuel : Nat) (S Sg : Schemas) (s : Schema) (efuel : Nat) (D : Def)
+    (hF : FragOA cs = true) (hR : rootFrag cs root = true) (hS : frontEnd pkg fuel cs = .ok S)
+    (hP : PlainS S = true) (hrun : runChain goChain S = .ok Sg)
+    (hself : Schemas.locate Sg pkg = some s) (hpkg : s.pkg = pkg) (hf : jsFrag Sg s = true)
+    (he : emitDefs efuel Sg s = some D) (hn : localHas s root = true)
+    (n F : Nat) (hFu : n + 3 ≤ F) (j : Json) (hwf : wfDeep j = true)
+    (hv : oaValidX fmt cs n (refTo root) j = true)
+    (hsat : sat (n + 3) Sg (.ref pkg root {}) j = true) :
+    ∃ j', goRoundTrip (n + 3) Sg pkg root j = .ok j' ∧ Json.eqv j' j = true ∧ jsValidObj D (F + 1) root j' = true := by
+  subst hpkg
+  have hsrc := parser_sound fmt s.pkg cs root fuel S hF hR hS n j hwf hv
+  have hden := (widen_chainS goChain (by decide) S Sg hP hrun).2 (n + 2) s.pkg root j hsrc
+  obtain ⟨j', h1, h2⟩ := C12_values_validate_same_ir_partial Sg s hself hf efuel D he (n + 3) F hFu root hn j hden hsat
+  obtain ⟨v, hv, g⟩ := roundtrip_core Sg (n + 3) _ j hden
+  have : j' = GoVal.goEncode v := by
+    simp [goRoundTrip, hv, DRes.map, DRes.bind] at h1
+    exact h1.symm
+  exact ⟨j', h1, by subst this; simp [Json.eqv, g.enc_sub, g.sub_enc], h2⟩
+
+/-! non-vacuity: `R = {code: string minLength 2 (required), tags?: [string]}` -/
+
+def scO (a : Cog.Front.OpenApi.OAttrs) : OSR := .mk "" true "" (.mk a [] [] [] [] .none .none)
+def exCompsFE : Components := [("R", .mk "" true "" (.mk { types := some ["object"], required := ["code"], addlHas := some false } [] [] []
+  [("code", scO { types := some ["string"], minLength := 2 }),
+   ("tags", .mk "" true "" (.mk { types := some ["array"] } [] [] [] [] .none (.some (scO { types := some ["string"] }))))] .none .none))]
+def exDocOA : Json := .obj [("code", .str "ab"), ("tags", .arr [.str "t"])]
+
+example :
+    FragOA exCompsFE = true ∧ rootFrag exCompsFE "R" = true ∧ wfDeep exDocOA = true ∧
+    oaValidX (fun _ _ => true) exCompsFE 4 (refTo "R") exDocOA = true ∧
+    (match frontEnd "p" 8 exCompsFE with
+     | .ok S =>
+       PlainS S &&
+       (match runChain goChain S with
+        | .ok Sg =>
+          (match Schemas.locate Sg "p" with
+           | some s => s.pkg == "p" && jsFrag Sg s && (emitDefs 8 Sg s).isSome && localHas s "R" &&
+                       sat 7 Sg (.ref "p" "R" {}) exDocOA
+           | none => false)
+        | _ => false)
+     | _ => false) = true := by
+  refine ⟨by decide +kernel, by decide +kernel, by decide +kernel, by decide +kernel, by decide +kernel⟩
+
+end OA
 
 -- ---- END block of the c01-front builder ----
 
